@@ -1,1 +1,8 @@
 //! Hooks owned by property C07 (feature `verif-hooks`).
+
+/// Run a unification script on a fresh type checker (built-in types declared)
+/// and return what `unify_inner` answered per step and `find` of every slot
+/// afterwards. See `TypeChecker::verif_c07_unify_script` for the format.
+pub fn unify_script(script: &str) -> String {
+    crate::typechecker::TypeChecker::verif_c07_unify_script(script)
+}
